@@ -238,6 +238,7 @@ func c04BuildVoc() {
 	c04VocAdd(c04SeqOrigins...)
 	c04VocAdd(c04SeqLocations...)
 	c04VocAdd(c04SeqRePat...)
+	c04VocAdd("pending")
 	c04VocAdd("t1", "t2", "t3", "pre", "text/pre", "Casket", "pre=1", "http", "https", "80", "0", "1", "11", "40", "k=v", "tq=1")
 	for _, t := range c04ReqTargets {
 		c04VocAdd(t)
@@ -522,6 +523,9 @@ func c04RunProxy(in *c04In) Result {
 			break
 		}
 	}
+	if answered && c04TrailerSharesHeader(in, rec.Result().Header) {
+		sig = c04SigSharedTrailer
+	}
 	class := "proxy:"
 	switch {
 	case len(tr.sent) >= 2:
@@ -786,6 +790,9 @@ func c04GetBackend() *c04Backend {
 		ann := map[string]bool{}
 		for _, k := range in.RAnn {
 			ann[k] = true
+			// the header section is on the wire: a trailer that shares its name with a response header
+			// is sent with the trailer's values only (this backend assigns, as the term handed to Coq says)
+			w.Header().Del(k)
 		}
 		for _, l := range in.RTrailers {
 			if ann[l[0]] {
@@ -927,6 +934,9 @@ func c04RunWire1(in *c04In) (Result, bool) {
 		// the front response is not chunked yet when the proxy learns about the trailers: class of
 		// the repaired F-C04-6 (label only; the proxy now flushes before setting such trailers)
 		sig = "wire:response:unannounced-trailers-short-body"
+	}
+	if c04TrailerSharesHeader(in, resp.Header) {
+		sig = c04SigSharedTrailer
 	}
 	looksFine := rerr == nil && len(got) == len(rb) && len(s.Body) == len(body) && resp.StatusCode == in.RStatus
 	return Result{Term: term, Obs: obs, Sig: sig, Direct: direct, Nontrivial: in.BodyLen > 0 || in.RBodyLen > 0, Class: class}, looksFine
@@ -1201,6 +1211,7 @@ func c04GenProxy1(r *Rand) *c04In {
 				}
 			}
 		}
+		c04ShareTrailerNames(r, in, true, []string{"pending", "t1", "v1"})
 	}
 	if r.Chance(18) {
 		in.Fails = r.Range(1, 2)
@@ -1284,11 +1295,81 @@ func c04GenWire(r *Rand, i int) *c04In {
 				in.RTrailers = append(in.RTrailers, [2]string{k, r.Pick([]string{"t1", "t2"})})
 			}
 		}
+		c04ShareTrailerNames(r, in, false, []string{"pending", "t1", "v1"})
 	}
 	if r.Chance(30) {
 		in.Dirs = []c04Dir{{K: r.Pick([]string{"transparent", "websocket"})}}
 	}
 	return in
+}
+
+// c04ShareTrailerNames lets trailer names - announced or not - occur among the response HEADERS too (a
+// provisional value in the header, the final one in the trailer; same name, different values), and,
+// where the kind has rules, puts header_downstream rules on such names.
+func c04ShareTrailerNames(r *Rand, in *c04In, rules bool, vals []string) {
+	if len(in.RAnn)+len(in.RTrailers) == 0 || !r.Chance(50) {
+		return
+	}
+	seen := map[string]bool{}
+	var names []string
+	for _, k := range in.RAnn {
+		if !seen[k] {
+			seen[k] = true
+			names = append(names, k)
+		}
+	}
+	for _, l := range in.RTrailers {
+		if !seen[l[0]] {
+			seen[l[0]] = true
+			names = append(names, l[0])
+		}
+	}
+	for _, k := range names {
+		if r.Chance(60) {
+			in.RHdr = append(in.RHdr, [2]string{k, r.Pick(vals)})
+			if r.Chance(20) {
+				in.RHdr = append(in.RHdr, [2]string{k, "v2"})
+			}
+		}
+		if rules && r.Chance(25) {
+			switch r.Intn(3) {
+			case 0:
+				in.Dirs = append(in.Dirs, c04Dir{K: "down", A: k, B: r.Pick([]string{"lit", "{host}"})})
+			case 1:
+				in.Dirs = append(in.Dirs, c04Dir{K: "down", A: "+" + k, B: r.Pick([]string{"lit", "{host}"})})
+			default:
+				in.Dirs = append(in.Dirs, c04Dir{K: "down", A: "-" + k, B: ""})
+			}
+		}
+	}
+}
+
+// class of the finding F-C04-7
+const c04SigSharedTrailer = "response:announced-trailer-shares-header-name+unannounced-trailers"
+
+// c04TrailerSharesHeader: some unannounced trailer arrived (all trailers travel under the TrailerPrefix,
+// the declared keys are looked up in the header map as well) while an ANNOUNCED trailer's name is also a
+// header of the client response
+func c04TrailerSharesHeader(in *c04In, clientHdr http.Header) bool {
+	ann := map[string]bool{}
+	for _, k := range in.RAnn {
+		ann[k] = true
+	}
+	forced := false
+	for _, l := range in.RTrailers {
+		if !ann[l[0]] {
+			forced = true
+		}
+	}
+	if !forced {
+		return false
+	}
+	for k := range ann {
+		if _, ok := clientHdr[k]; ok {
+			return true
+		}
+	}
+	return false
 }
 
 func c04PickInt(r *Rand, xs []int) int { return xs[r.Intn(len(xs))] }
